@@ -1,23 +1,13 @@
-"""Per-property configuration of ./check (one table; MANIFEST.json is generated from it)."""
+"""Per-property configuration of ./check: one JSON file per property in tools/props/
+(MANIFEST.json is generated from them by tools/gen_manifest.py)."""
+import json, os, glob
 
-COMMON_TRUST = "Lean 4.33.0 kernel (axioms per theorem audited on every run: must be within propext, Classical.choice, Quot.sound); tools/extract.py; the correspondence harness (sampling); rustc/std/tokio as compiled."
+COMMON_TRUST = ("Lean 4.33.0 kernel (axioms of every theorem audited on every run: must be within propext, "
+                "Classical.choice, Quot.sound); tools/extract.py; the correspondence harness (sampling); "
+                "rustc/std/tokio as compiled. ")
 
-PROPS = {
-    "C07": {
-        "bin": "hcore", "sub": "c07",
-        "lean_modules": ["ElvisVerif.Props.C07"],
-        "required_theorems": [
-            "Elvis.Msg.c07_len", "Elvis.Msg.c07_new", "Elvis.Msg.c07_header", "Elvis.Msg.c07_concat",
-            "Elvis.Msg.c07_slice", "Elvis.Msg.c07_cut", "Elvis.Msg.c07_remove_front", "Elvis.Msg.c07_eq_iff",
-            "Elvis.Msg.c07_ranges", "Elvis.Msg.c07_step", "Elvis.Msg.c07_history", "Elvis.Msg.c07_independent",
-        ],
-        "quick": {"cases": 2000, "extra": {"ops": 30}},
-        "thorough": {"cases": 200000, "extra": {"ops": 30}},
-        "design_ref": "DESIGN.md section 8, C07",
-        "technique": "Lean 4 refinement proof (Message ops = byte-vector ops, induction over op sequences) + differential correspondence run of model vs. real Message",
-        "text": "Proof: every Message operation (new/header/concatenate/slice by all six range forms/cut/remove_front/clone, ==, len, to_vec) is proved in Lean to refine the same operation on plain byte lists, including exactly when it panics, and the refinement is lifted by induction to every operation sequence over a pool (c07_history) and to independence of pool members (c07_independent). The hand-written model is tied to the code by running the real Message and the compiled model on the same generated op sequences and diffing the full pool contents after every op; a native oracle compares the real Message with Vec<u8> shadows.",
-        "level_note": COMMON_TRUST + " Arc<Vec<u8>> sharing is invisible in the value model; absence of in-place mutation is checked on the code side by dumping every pool member after every op and by the extractor refusing unsafe/get_mut/make_mut/interior mutability in message/.",
-        "assumptions": ["model is hand-written; agreement with message.rs is established by sampling (op sequences), not by proof",
-                        "usize overflow (lengths near 2^64) not modelled"],
-    },
-}
+PROPS = {}
+for _p in sorted(glob.glob(os.path.join(os.path.dirname(os.path.abspath(__file__)), "props", "C*.json"))):
+    _c = json.load(open(_p))
+    _c["level_note"] = COMMON_TRUST + _c.get("level_note", "")
+    PROPS[os.path.basename(_p)[:-5]] = _c
